@@ -535,6 +535,14 @@ func plain(u string) bool {
 
 var userPool = []string{"a", "ab", "abc", "abcd", "xyz", "xy", "abcxyz", "usr", "userCollections", "A", "aB", "ab.", "ab0", "ab-", ".a", "..a", "...",
 	"a.b", "\xc3\xa9", "ab cd", "*", "%2F", "ab\\cd", "abc\\", ".", "..", "a/b", "/", "ab/", "abc/xyz", "../abc", "./abc"}
+// ids that differ only in characters a sanitiser might fold together (none contains '/' or '\\')
+var confusable = [][]string{
+	{"a.b", "a_b", "a:b", "a|b", "a b", "a-b", "a+b"},
+	{"acme.eu", "acme_eu", "acme-eu", "acme:eu"},
+	{"abc", "ABC", "Abc", "abC"},
+	{"ab", "ab_", "ab.", "ab-", "ab~"},
+}
+
 var colPool = []string{"abc", "abcd", "xyz", "xyzabc", "cde", "usercollections", "abcdefghijklmnopqrstuvwx", "a1b2c3"}
 
 // collections created through the v1 API carry a fixed vector schema (no integer index "k"), so
@@ -554,10 +562,19 @@ func genScenario(r *vh.Rng, variant string, sidCounter *int) scenario {
 	sc := scenario{maxCols: 1 + r.Intn(3), maxPts: 3 + r.Intn(6)}
 	nu := 2 + r.Intn(2)
 	var users []string
+	// one scenario in eight: tenants whose ids become equal under some "harmless" normalisation (other
+	// separator-like characters, case, surrounding blanks are trimmed by net/http so inner blank only)
+	var family []string
+	if r.Chance(12) {
+		family = vh.Pick(r, confusable)
+	}
 	for len(users) < nu {
 		u := vh.Pick(r, userPool)
 		if r.Chance(55) {
 			u = vh.Pick(r, userPool[:10])
+		}
+		if family != nil {
+			u = vh.Pick(r, family)
 		}
 		if variant == "pinned" && strings.Contains(u, "/") {
 			continue // outside the property's domain ("user ids without '/'"); only meaningful once refused
@@ -571,6 +588,9 @@ func genScenario(r *vh.Rng, variant string, sidCounter *int) scenario {
 		}
 	}
 	cols := []string{vh.Pick(r, colPool), vh.Pick(r, colPool), vh.Pick(r, colPool)}
+	if family != nil {
+		cols = cols[:1+r.Intn(2)] // few names, so that the tenants own equally named collections
+	}
 	for _, u := range users { // another user's id as collection name
 		if len(u) >= 3 && r.Chance(50) {
 			cols = append(cols, u)
